@@ -479,9 +479,9 @@ func sameTree(key string, s sv, o la) string {
 // ---------------------------------------------------------------- decoding an emitted record
 // c15node is one member of a decoded JSON record, in the order of the text; a JSON object is a group
 type c15node struct {
-	Key   string  `json:"key"`
-	Group bool    `json:"group,omitempty"`
-	Raw   string  `json:"raw,omitempty"`
+	Key   string    `json:"key"`
+	Group bool      `json:"group,omitempty"`
+	Raw   string    `json:"raw,omitempty"`
 	Items []c15node `json:"items,omitempty"`
 }
 
@@ -546,15 +546,15 @@ func sameText(want []byte, got string) bool {
 }
 
 type emission struct {
-	Dest    int     `json:"dest"`  // 1 = the logger's own writers, 0 = the package default writers
-	Shape   string  `json:"shape"` // Blank ShJSON ShLogfmt ShColor ?
-	Level   int     `json:"level"` // -99 unknown
-	Time    string  `json:"time,omitempty"`
-	Msg     string  `json:"msg"`
-	MsgOK   bool    `json:"msg_ok"`
+	Dest    int       `json:"dest"`  // 1 = the logger's own writers, 0 = the package default writers
+	Shape   string    `json:"shape"` // Blank ShJSON ShLogfmt ShColor ?
+	Level   int       `json:"level"` // -99 unknown
+	Time    string    `json:"time,omitempty"`
+	Msg     string    `json:"msg"`
+	MsgOK   bool      `json:"msg_ok"`
 	Attrs   []c15node `json:"attrs"`
-	Caller  bool    `json:"caller"`
-	Payload []byte  `json:"payload,omitempty"`
+	Caller  bool      `json:"caller"`
+	Payload []byte    `json:"payload,omitempty"`
 }
 
 func levelByName(name string) int {
@@ -721,7 +721,7 @@ func jnodesCoq(ns []c15node) string {
 
 // ---------------------------------------------------------------- cases
 type c15Deriv struct {
-	Attrs []sa   `json:"attrs,omitempty"`
+	Attrs []sa    `json:"attrs,omitempty"`
 	Group *string `json:"group,omitempty"`
 }
 
@@ -748,7 +748,7 @@ type c15Case struct {
 	OptLevel int        `json:"opt_level,omitempty"`
 	Ds       []c15Deriv `json:"derivations,omitempty"`
 	Via      bool       `json:"via_slog_logger,omitempty"`
-	Siblings bool `json:"siblings,omitempty"` // after every derivation two more handlers are derived from the same parent and dropped
+	Siblings bool       `json:"siblings,omitempty"` // after every derivation two more handlers are derived from the same parent and dropped
 	Sec      int64      `json:"sec,omitempty"`
 	Nsec     int64      `json:"nsec,omitempty"`
 	Zone     int        `json:"zone,omitempty"`
@@ -920,11 +920,28 @@ func c15Log(r *Run, snap *slog.VerifRegistry, L int, dbg bool, z int64, msg stri
 // ---- the std-log bridge
 func c15Bridge(r *Run, snap *slog.VerifRegistry, L, sev int, dbg bool, msg []byte, viaPrint bool) {
 	c15Prep(snap)
-	l := c15Logger(L)
+	// half of the grid (a function of the cell): the bridge is made while the logger is at ANOTHER level,
+	// the level under test is set afterwards - the bridge follows the logger, it does not remember
+	late := (L+sev)%2 == 0
+	l0 := L
+	if late {
+		l0 = 2
+		if L == 2 {
+			l0 = 6
+		}
+	}
+	l := c15Logger(l0)
 	l.SetJSONMode(true)
+	var lg *log.Logger
+	if late {
+		lg = slog.NewLogLogger(l, slog.Level(sev))
+		l.SetLevel(slog.Level(L))
+	}
 	is.SetDebugMode(dbg || L == 5)
 	dbgNow := is.DebugMode()
-	lg := slog.NewLogLogger(l, slog.Level(sev))
+	if !late {
+		lg = slog.NewLogLogger(l, slog.Level(sev))
+	}
 	// what log.Logger hands to its writer: the message, a line feed added unless it ends in one
 	buf := append([]byte(nil), msg...)
 	if len(buf) == 0 || buf[len(buf)-1] != '\n' {
@@ -1093,6 +1110,17 @@ func c15Handle(r *Run, snap *slog.VerifRegistry, c c15Case) {
 		obs.Enabled[int(z)] = h.Enabled(ctx, logslog.Level(z))
 	}
 
+	// an earlier record through the same handler (half of the cases with derivations): its attribute sorts
+	// before every other key; nothing of it may stay behind in the handler
+	if len(c.Ds) > 0 && (len(c.Msg)+len(c.Ds)+len(c.Attrs))%2 == 0 {
+		pre := logslog.NewRecord(time.Unix(1, 0), logslog.Level(c.Z), "earlier record", 0)
+		pre.AddAttrs(logslog.String("!earlier", "x"), logslog.Int("~earlier", 1))
+		if c.Via {
+			sl.LogAttrs(ctx, logslog.Level(c.Z), "earlier record", logslog.String("!earlier", "x"), logslog.Int("~earlier", 1))
+		} else {
+			_ = h.Handle(ctx, pre)
+		}
+	}
 	// the record
 	real := toSlogAttrs(c.Attrs)
 	var recTime time.Time
@@ -1390,7 +1418,11 @@ func genHandleCase(r *Run, maxDepth int) c15Case {
 				}
 				c.Ds = append(c.Ds, c15Deriv{Group: &name})
 			} else {
-				c.Ds = append(c.Ds, c15Deriv{Attrs: g.attrs(depth, depth+maxDepth-1, 3)})
+				na := 3
+				if rg.Chance(30) {
+					na = 7
+				}
+				c.Ds = append(c.Ds, c15Deriv{Attrs: g.attrs(depth, depth+maxDepth-1, na)})
 			}
 		}
 	}
